@@ -2,37 +2,43 @@
 // Black box: public API of x509 and pkcs12 only.  No model runner: the observations are decided by
 // the predicate of checks/c17.py.
 //
-//   c17 gen  <seed> <tier> <cases-out> <obs-out>
-//   c17 run  <cases-in> <obs-out>
+//	c17 gen  <seed> <tier> <cases-out> <obs-out>
+//	c17 run  <cases-in> <obs-out>
 //
 // Case lines:
-//   E  id alg kt nrec mode content        envelope content for nrec recipients (alg des|gcm, kt sm2|rsa, mode 0|1 = SM2
-//                                         ciphertext ordering), parse, decrypt as each recipient, as a stranger, as
-//                                         recipient 1 with another private key
-//        -> ok <per recipient: = | x | !> <stranger: err|ok> <wrongkey: err|same|diff>
-//   S  id signer attrs detached content   signed data: signer rsa-lib / sm2-lib (library's own AddSigner with an RSA / SM2 key), sm2-sm3, sm2-sm3b
-//                                         (second SM3 OID), sm2-sha256 (built by the driver with encoding/asn1 from the
-//                                         structures of pkcs7.go); verify; verify after altering content / attribute / signature
-//        -> ok <verify: ok|err|unsupported> <content': ok|err> <attribute': ok|err|na> <signature': ok|err> <other cert: ok|err>
-//   P  id pwkind keykind certkind api     pkcs12.Encode(key, cert, password), then ONE of: api = decode (Decode), decodeall
-//                                         (DecodeAll); decode+ca / decodeall+ca: bundle with an extra CA certificate, topem (ToPEM) with the password, wrongpw (Decode/DecodeAll with others)
-//        -> same | diff | err (decode, decodeall) ; ok | err (topem) ; err | ok (wrongpw) ; encerr
-//   PW id keykind password wrong         (passwords as hex of UTF-8) Encode with password, then Decode / DecodeAll / ToPEM with the OTHER
-//                                         password wrong: must all fail                              -> err | ok
-//   PL id keykind password               Encode then DecodeAll with the same (long) password          -> same | diff | err | encerr
-//   K  id which                           a key / certificate of the other type handed to the PKCS#7 API: must be an error,
-//                                         not a panic: which = decrypt-sm2key | decryptsm2-rsakey | encrypt-sm2cert | encryptsm2-rsacert
-//        -> err | ok
-//   PC id pwkind pos val p12 keyD cert    one byte of a PKCS#12 container replaced, DecodeAll with the right password
-//        -> err | same | diff
-//   SC id pos val p7 content              one byte of an SM2 signed-data container replaced: parse, Verify
-//        -> err | verified-same | verified-diff
-//   VER id p7 detached-content|= <decoded pieces>   signed data (genuine, tampered, corrupted): ParsePKCS7, Verify -> ok | err; the pieces
-//                                         (content, certificates, hashes, signer infos, per-certificate signature verdicts) are what the
-//                                         library decoded, read through x509/verif_decoders_verif.go: the extracted model of Verify
-//                                         (coq/P7/P7Model.v) takes its decision from them and must agree
-//   EC id alg kt mode pos val p7 content cert one byte of an enveloped-data container replaced: parse, decrypt as recipient 1
-//        -> err | same | diff            (no integrity is promised for CBC content: recorded; for GCM diff is a failure)
+//
+//	E  id alg kt nrec mode content        envelope content for nrec recipients (alg des|gcm, kt sm2|rsa, mode 0|1 = SM2
+//	                                      ciphertext ordering), parse, decrypt as each recipient, as a stranger, as
+//	                                      recipient 1 with another private key
+//	     -> ok <per recipient: = | x | !> <stranger: err|ok> <wrongkey: err|same|diff>
+//	S  id signer attrs detached content   signed data: signer rsa-lib / sm2-lib (library's own AddSigner with an RSA / SM2 key), sm2-sm3, sm2-sm3b
+//	                                      (second SM3 OID), sm2-sha256 (built by the driver with encoding/asn1 from the
+//	                                      structures of pkcs7.go); verify; verify after altering content / attribute / signature
+//	     -> ok <verify: ok|err|unsupported> <content': ok|err> <attribute': ok|err|na> <signature': ok|err> <other cert: ok|err>
+//	P  id pwkind keykind certkind api     pkcs12.Encode(key, cert, password), then ONE of: api = decode (Decode), decodeall
+//	                                      (DecodeAll); decode+ca / decodeall+ca: bundle with an extra CA certificate, topem (ToPEM) with the password, wrongpw (Decode/DecodeAll with others)
+//	     -> same | diff | err (decode, decodeall) ; ok | err (topem) ; err | ok (wrongpw) ; encerr
+//	PW id keykind password wrong         (passwords as hex of UTF-8) Encode with password, then Decode / DecodeAll / ToPEM with the OTHER
+//	                                      password wrong: must all fail                              -> err | ok
+//	PL id keykind password               Encode then DecodeAll with the same (long) password          -> same | diff | err | encerr
+//	SEL id mode alg content certIdent recipients p7   enveloped data whose recipient list was rewritten (issuer / serial swapped, recipients
+//	                                      duplicated, reordered, removed; wrapped keys genuine, for another recipient, garbage or empty), decrypted
+//	                                      as sm2Certs[0] / sm2Keys[0].  recipients = serial:issuer:verdict,... with verdict K (the wrapped key
+//	                                      opens with our key: the genuine one) or B (it does not).  The extracted Decrypt model takes its decision
+//	                                      from that list.                                            -> ok | err | diff
+//	K  id which                           a key / certificate of the other type handed to the PKCS#7 API: must be an error,
+//	                                      not a panic: which = decrypt-sm2key | decryptsm2-rsakey | encrypt-sm2cert | encryptsm2-rsacert
+//	     -> err | ok
+//	PC id pwkind pos val p12 keyD cert    one byte of a PKCS#12 container replaced, DecodeAll with the right password
+//	     -> err | same | diff
+//	SC id pos val p7 content              one byte of an SM2 signed-data container replaced: parse, Verify
+//	     -> err | verified-same | verified-diff
+//	VER id p7 detached-content|= <decoded pieces>   signed data (genuine, tampered, corrupted): ParsePKCS7, Verify -> ok | err; the pieces
+//	                                      (content, certificates, hashes, signer infos, per-certificate signature verdicts) are what the
+//	                                      library decoded, read through x509/verif_decoders_verif.go: the extracted model of Verify
+//	                                      (coq/P7/P7Model.v) takes its decision from them and must agree
+//	EC id alg kt mode pos val p7 content cert one byte of an enveloped-data container replaced: parse, decrypt as recipient 1
+//	     -> err | same | diff            (no integrity is promised for CBC content: recorded; for GCM diff is a failure)
 package main
 
 import (
@@ -763,6 +769,68 @@ func runEC(f []string) string {
 	return "diff"
 }
 
+// mirror of the enveloped-data structures of x509/pkcs7.go
+type envelopedData struct {
+	Version              int
+	RecipientInfos       []recipientInfo `asn1:"set"`
+	EncryptedContentInfo encryptedContentInfo
+}
+type recipientInfo struct {
+	Version                int
+	IssuerAndSerialNumber  issuerAndSerial
+	KeyEncryptionAlgorithm pkix.AlgorithmIdentifier
+	EncryptedKey           []byte
+}
+type encryptedContentInfo struct {
+	ContentType                asn1.ObjectIdentifier
+	ContentEncryptionAlgorithm pkix.AlgorithmIdentifier
+	EncryptedContent           asn1.RawValue `asn1:"tag:0,optional"`
+}
+
+// a genuine envelope for sm2Certs[idx], taken apart
+func genuineEnvelope(alg string, mode int, content []byte, idx int) (envelopedData, error) {
+	algMu.Lock()
+	setAlg(alg)
+	der, err := x509.PKCS7EncryptSM2(content, []*x509.Certificate{sm2Certs[idx]}, mode)
+	algMu.Unlock()
+	var ed envelopedData
+	if err != nil {
+		return ed, err
+	}
+	var ci contentInfo
+	if _, err := asn1.Unmarshal(der, &ci); err != nil {
+		return ed, err
+	}
+	_, err = asn1.Unmarshal(ci.Content.Bytes, &ed)
+	return ed, err
+}
+
+func reassemble(ed envelopedData) []byte {
+	inner, err := asn1.Marshal(ed)
+	must(err)
+	out, err := asn1.Marshal(contentInfo{ContentType: asn1.ObjectIdentifier{1, 2, 840, 113549, 1, 7, 3},
+		Content: asn1.RawValue{Class: 2, Tag: 0, IsCompound: true, Bytes: inner}})
+	must(err)
+	return out
+}
+
+func runSEL(f []string) string {
+	mode, _ := strconv.Atoi(f[2])
+	content := hx.UnHex(f[4])
+	p7, err := x509.ParsePKCS7(hx.UnHex(f[7]))
+	if err != nil {
+		return "err"
+	}
+	pt, err := p7.DecryptSM2(sm2Certs[0], sm2Keys[0], mode)
+	if err != nil {
+		return "err"
+	}
+	if bytes.Equal(pt, content) {
+		return "ok"
+	}
+	return "diff"
+}
+
 var verAlgos = []string{"SM2WithSM3", "SM2WithSHA256", "SM2WithSHA1", "SHA1WithRSA", "SHA256WithRSA"}
 
 func oidStr(o []int) string {
@@ -895,6 +963,8 @@ func runCase(line string) string {
 			return runK(f)
 		case "VER":
 			return runVER(f)
+		case "SEL":
+			return runSEL(f)
 		case "PW":
 			return runPW(f)
 		case "PL":
@@ -1175,8 +1245,8 @@ func gen(seed uint64, tier string) []string {
 					c := r.Bytes(n)
 					der := makeSM2Signed(kind, at, det, c, 0)
 					addVER(der, c, det)
-					addVER(der, append(append([]byte{}, c...), 1), true)          // other content
-					addVER(makeSM2Signed(kind, at, det, c, 1), c, det)            // signer certificate missing
+					addVER(der, append(append([]byte{}, c...), 1), true) // other content
+					addVER(makeSM2Signed(kind, at, det, c, 1), c, det)   // signer certificate missing
 					d3 := append([]byte{}, der...)
 					d3[len(d3)-1] ^= 1
 					addVER(d3, c, det) // signature altered
@@ -1208,6 +1278,83 @@ func gen(seed uint64, tier string) []string {
 				d := append([]byte{}, der...)
 				d[p] ^= byte(v)
 				addVER(d, nil, false)
+			}
+		}
+	}
+	// recipient selection against the extracted model: rewritten recipient lists
+	for _, alg := range []string{"des", "gcm"} {
+		for _, mode := range []int{0, 1} {
+			cont := r.Bytes(1 + r.Intn(40))
+			edA, err := genuineEnvelope(alg, mode, cont, 0)
+			must(err)
+			edB, err := genuineEnvelope(alg, mode, cont, 1)
+			must(err)
+			goodA := edA.RecipientInfos[0]
+			forB := edB.RecipientInfos[0]
+			type ent struct {
+				ri recipientInfo
+				v  string
+			}
+			mk := func(issuerFrom, serialFrom int, key []byte, v string) ent {
+				ri := goodA
+				ri.IssuerAndSerialNumber = issuerAndSerial{IssuerName: asn1.RawValue{FullBytes: sm2Certs[issuerFrom].RawIssuer}, SerialNumber: sm2Certs[serialFrom].SerialNumber}
+				ri.EncryptedKey = key
+				return ent{ri, v}
+			}
+			garbage := r.Bytes(120)
+			pool := []ent{
+				mk(0, 0, goodA.EncryptedKey, "K"), // the genuine recipient
+				mk(0, 0, forB.EncryptedKey, "B"),  // our identity, key wrapped for somebody else
+				mk(0, 0, garbage, "B"),            // our identity, garbage
+				mk(0, 0, []byte{}, "B"),           // our identity, empty key
+				mk(1, 1, forB.EncryptedKey, "B"),  // another recipient
+				mk(1, 1, goodA.EncryptedKey, "K"), // another identity carrying OUR wrapped key
+				mk(0, 1, goodA.EncryptedKey, "K"), // our issuer, other serial
+				mk(1, 0, goodA.EncryptedKey, "K"), // other issuer, our serial
+				mk(2, 2, garbage, "B"),
+			}
+			var lists [][]int
+			lists = append(lists, []int{}, []int{0}, []int{1}, []int{4}, []int{5}, []int{6}, []int{7}, []int{0, 0}, []int{1, 0}, []int{0, 1},
+				[]int{2, 0}, []int{3, 0}, []int{4, 0}, []int{0, 4}, []int{5, 6, 7}, []int{5, 6, 7, 0}, []int{4, 8, 0, 1}, []int{4, 8, 1, 0}, []int{6, 7, 2})
+			nr := 25
+			if tier == "thorough" {
+				nr = 400
+			}
+			for i := 0; i < nr; i++ {
+				n := r.Intn(6)
+				l := make([]int, n)
+				for j := range l {
+					l[j] = r.Intn(len(pool))
+				}
+				lists = append(lists, l)
+			}
+			for _, l := range lists {
+				ed := edA
+				ed.RecipientInfos = nil
+				for _, k := range l {
+					ed.RecipientInfos = append(ed.RecipientInfos, pool[k].ri)
+				}
+				der := reassemble(ed)
+				// the recipient list as it stands in the container (encoding/asn1 sorts a SET OF when marshalling)
+				var ci2 contentInfo
+				_, err := asn1.Unmarshal(der, &ci2)
+				must(err)
+				var ed2 envelopedData
+				_, err = asn1.Unmarshal(ci2.Content.Bytes, &ed2)
+				must(err)
+				var desc []string
+				for _, ri := range ed2.RecipientInfos {
+					v := "B"
+					if bytes.Equal(ri.EncryptedKey, goodA.EncryptedKey) {
+						v = "K"
+					}
+					desc = append(desc, serialHex(ri.IssuerAndSerialNumber.SerialNumber)+":"+hx.Hex(ri.IssuerAndSerialNumber.IssuerName.FullBytes)+":"+v)
+				}
+				ds := "-"
+				if len(desc) > 0 {
+					ds = strings.Join(desc, ",")
+				}
+				add("SEL # %d %s %s %s %s %s", mode, alg, hx.Hex(cont), serialHex(sm2Certs[0].SerialNumber)+":"+hx.Hex(sm2Certs[0].RawIssuer), ds, hx.Hex(der))
 			}
 		}
 	}
@@ -1246,6 +1393,7 @@ func main() {
 			o.Case(lines[i])
 			o.Obs(obs[i])
 		}
+		o.Retry(runCase) // a case that ran out of time in this pass is re-run alone with 10x deadlines
 		o.Close()
 		return
 	}
@@ -1256,6 +1404,7 @@ func main() {
 		for _, l := range obs {
 			o.Obs(l)
 		}
+		o.Retry(runCase) // a case that ran out of time in this pass is re-run alone with 10x deadlines
 		o.Close()
 		return
 	}
